@@ -23,7 +23,7 @@ BOUNDS = {
     "quick": "runs of 3 chunks, offending chunk index symbolic in 0..2; plugin kinds source / ordinary / multi-output / "
              "down-chunking / loop / cut / overlap-window; violation kinds: wrong dtype (extra field, missing field, "
              "narrower int) as bare array and wrapped in a chunk, titled vs untitled dtype (must be accepted), rows "
-             "outside the chunk (symbolic times and bounds), wrong data_type label, gap / overlap between target "
+             "outside the chunk (1-3 time-sorted rows, symbolic times with end times in any order, symbolic bounds), wrong data_type label, gap / overlap between target "
              "chunks (symbolic), non-dict from a multi-output plugin, non-chunk from a down-chunking plugin; both "
              "processors",
     "thorough": "same with 4 chunks",
@@ -230,18 +230,35 @@ def nat_table(params, model):
 
 
 # ---------------------------------------------------------------------------- symbolic range / continuity
-def sym_range(pkind, proc="single"):
-    """A plugin returns one row whose times are symbolic: accepted <=> the row lies inside the chunk that carries it."""
+def _sym_rows(n):
+    rows = []
+    for q in range(n):
+        t = fresh_int(f"t{q}", 0, H.T_MAX); e = fresh_int(f"e{q}", 0, H.T_MAX)
+        assume(e > t)
+        if rows:
+            assume(t >= rows[-1][0])  # time-sorted, as the property's quantifier states; end times are free
+        rows.append((t, e))
+    return rows
+
+
+def sym_range(pkind, n=1, proc="single"):
+    """A plugin returns n time-sorted rows with symbolic times: accepted <=> every row lies inside the chunk that
+    carries it (a late row need not be the last one)."""
     import strax
 
     S = fresh_int("S", 0, H.T_MAX); E = fresh_int("E", 0, H.T_MAX)
     assume(E >= S)
-    t = fresh_int("t", 0, H.T_MAX); e = fresh_int("e", 0, H.T_MAX)
-    assume(e > t)
+    rows = _sym_rows(n)
     L = ctx.Layout([S, E], [[]])
     MemFrontend, _, _ = ctx.make_storage_classes()
     fe = MemFrontend()
     D = arrays.obj_dtype(ctx.ROW)
+
+    def data():
+        a = arrays.make(ctx.ROW, n)
+        for q, (t, e) in enumerate(rows):
+            a["time"][q], a["endtime"][q], a["id"][q] = t, e, q
+        return a
 
     if pkind == "source":
         class V(strax.Plugin):
@@ -254,23 +271,19 @@ def sym_range(pkind, proc="single"):
                 return chunk_i < 1
 
             def compute(self, chunk_i):
-                a = arrays.make(ctx.ROW, 1)
-                a["time"][0], a["endtime"][0] = t, e
-                return self.chunk(start=S, end=E, data=a)
+                return self.chunk(start=S, end=E, data=data())
         P = [V]
     else:
         class V(strax.Plugin):
             provides = ("vv",); depends_on = ("src",); data_kind = "kv"; dtype = D
 
             def compute(self, ksrc, start, end):
-                a = arrays.make(ctx.ROW, 1)
-                a["time"][0], a["endtime"][0] = t, e
-                return a
+                return data()
         P = [ctx.P_source("src", "ksrc", L, True, save_when=strax.SaveWhen.NEVER), V]
     st = ctx.make_context(P, storage=[fe], timeout=1)
     raised, res = H.expect_raises(ValueError, lambda: st.get_array(RUN, "vv", processor="single_thread", progress_bar=False))
-    inside = sand(S <= t, e <= E)
-    prove(iff(inside, not raised), f"range:accepted iff the row lies inside its chunk (raised={raised})")
+    inside = sand(*[sand(S <= t, e <= E) for t, e in rows])
+    prove(iff(inside, not raised), f"range:accepted iff every row lies inside its chunk (raised={raised})")
     if raised:
         prove(not st.is_stored(RUN, "vv"), "range:rejected output left in storage as valid")
     return raised
@@ -279,7 +292,9 @@ def sym_range(pkind, proc="single"):
 def nat_range(params, model):
     import strax
 
-    S, E, t, e = model["S"], model["E"], model["t"], model["e"]
+    S, E = model["S"], model["E"]
+    n = params.get("n", 1)
+    rows = [(model[f"t{q}"], model[f"e{q}"], q) for q in range(n)]
     L = ctx.Layout([S, E], [[]])
 
     class V(strax.Plugin):
@@ -294,20 +309,20 @@ def nat_range(params, model):
 
     if params["pkind"] == "source":
         def compute(self, chunk_i):
-            return self.chunk(start=S, end=E, data=_mk(ctx.ROW, [(t, e, 0)]))
+            return self.chunk(start=S, end=E, data=_mk(ctx.ROW, rows))
         V.compute = compute
         P = [V]
     else:
         def compute(self, ksrc, start, end):
-            return _mk(ctx.ROW, [(t, e, 0)])
+            return _mk(ctx.ROW, rows)
         V.compute = compute
         P = [ctx.P_source("src", "ksrc", L, False, save_when=strax.SaveWhen.NEVER), V]
     MemFrontend, _, _ = ctx.make_storage_classes()
     st = ctx.make_context(P, storage=[MemFrontend()], timeout=2)
     raised, res = H.expect_raises(ValueError, lambda: st.get_array(RUN, "vv", processor="single_thread", progress_bar=False))
-    inside = S <= t and e <= E
+    inside = all(S <= t and e <= E for t, e, _ in rows)
     ok = (inside == (not raised)) and (not raised or not st.is_stored(RUN, "vv"))
-    return {"ok": ok, "detail": f"inside={inside} raised={raised}"}
+    return {"ok": ok, "detail": f"inside={inside} raised={raised}", "label": "range:"}
 
 
 def sym_continuity():
@@ -393,6 +408,9 @@ def _grid(tier):
 MUTANTS = [
     dict(name="range check ignores late rows", file="strax/chunk.py",
          old="            if data_ends_at > self.end:", new="            if False:"),
+    dict(name="range check looks at the last row only", file="strax/chunk.py",
+         old="            data_ends_at = strax.endtime(self.data[-500:]).max()",
+         new="            data_ends_at = strax.endtime(self.data[-1:]).max()"),
     dict(name="range check ignores early rows", file="strax/chunk.py",
          old="            if data_starts_at < self.start:", new="            if False:"),
     dict(name="continuity check disabled", file="strax/chunk.py",
@@ -409,8 +427,11 @@ MUTANTS = [
 OBLIGATIONS = [
     Ob("table", sym_table, _grid, nat_table, setup=_setup, witnesses=1,
        doc="every (plugin kind x violation kind), offending chunk index symbolic: exception raised and nothing stored as valid"),
-    Ob("range", sym_range, lambda tier: [dict(pkind=p) for p in ("ordinary", "source")], nat_range, setup=_setup, witnesses=2,
-       doc="accepted <=> start <= time and endtime <= end, symbolic times and bounds"),
+    Ob("range", sym_range, lambda tier: [dict(pkind=p, n=n) for p in ("ordinary", "source")
+                                         for n in ((1, 2, 3) if tier == "quick" else (1, 2, 3, 4))], nat_range,
+       setup=_setup, witnesses=2,
+       doc="accepted <=> every one of n time-sorted rows has start <= time and endtime <= end (symbolic times, end "
+           "times in any order, symbolic bounds)"),
     Ob("continuity", sym_continuity, lambda tier: [dict()], nat_continuity, setup=_setup, witnesses=2,
        doc="get_iter raises <=> start_i != end_{i-1} (symbolic)"),
     Ob("twin", sym_twin, lambda tier: [dict()], None, setup=_setup, expect_cex=True),
